@@ -132,20 +132,21 @@ type vC07Line struct {
 }
 
 type vC07Run struct {
-	t      *testing.T
-	ctx    context.Context
-	under  base.DataStore
-	keys   *base.MetadataKeys
-	allocs []*sequenceAllocator
-	alive  []bool
-	parked [][]*vC07Call // in-flight calls per allocator, in start order
-	held   []map[uint64]bool
-	mu     sync.Mutex
-	adds   []vC07Op // every notice write observed at the storage boundary since the last step
-	docs   [][3]int // notices written so far (added == true)
-	dkeys  []string
-	lines  []vC07Line
-	note   string
+	t        *testing.T
+	ctx      context.Context
+	under    base.DataStore
+	keys     *base.MetadataKeys
+	allocs   []*sequenceAllocator
+	alive    []bool
+	parked   [][]*vC07Call // in-flight calls per allocator, in start order
+	held     []map[uint64]bool
+	mu       sync.Mutex
+	adds     []vC07Op // every notice write observed at the storage boundary since the last step
+	docs     [][3]int // notices written so far (added == true)
+	dkeys    []string
+	lines    []vC07Line
+	note     string
+	overlaps int // calls executed inside a release window that the code left open
 }
 
 const vC07Wait = 60 * time.Second
@@ -176,6 +177,9 @@ func (r *vC07Run) parseNotice(key string) ([3]int, bool) {
 func (r *vC07Run) classify(c *vC07Call) string {
 	if c.parked == nil {
 		return "odd"
+	}
+	if c.kind == "idle" {
+		return "rel" // releaseUnusedSequences in front of its notice write
 	}
 	hasGet, _ := c.performed("get")
 	hasIncr, _ := c.performed("incr")
@@ -385,15 +389,45 @@ func (r *vC07Run) findParked(n int, class string, from uint64) *vC07Call {
 	return nil
 }
 
-// step executes one behaviour step; false = the real system is not where the behaviour assumes (stop following it).
-func (r *vC07Run) step(st vC07Step) bool {
+// release runs releaseUnusedSequences of allocator n as a gated call (the idle release, and the release part of Stop).
+// The call is parked in front of its notice write.  The specification holds the allocator's mutex across that write, so
+// no other call of the same allocator can run there.  The harness probes exactly this: if the behaviour's next step is
+// a call of the same allocator and the real mutex is observably FREE while the write is parked, that call is executed
+// inside the window (its real outputs are recorded first, in real order); otherwise it would simply block on the mutex
+// until the release finishes, so it is run afterwards.  For Stop the real Stop() follows; its own release and the one of
+// the monitor goroutine then find nothing left to release, which keeps the background goroutine out of the recorded
+// outputs (two concurrent releases would be a race the scheduler does not control).
+func (r *vC07Run) release(a string, n int, next *vC07Step) (consumedNext bool) {
+	c := r.start(n, "idle", 0, true, "gate")
+	if !c.fin && next != nil && vInt(next.N) == n && r.mutexFree(n) {
+		switch next.A {
+		case "Next", "GTLast": // calls that run to completion (a call parked with the mutex held would block the release's re-lock)
+			r.overlaps++
+			r.step(*next, nil)
+			consumedNext = true
+		}
+	}
+	if !c.fin {
+		r.resume(c, "done")
+	}
+	if a == "Stop" {
+		r.start(n, "stop", 0, false, "done")
+		r.alive[n-1] = false
+	}
+	r.emit(a, n, 0, c, 0)
+	return consumedNext
+}
+
+// step executes one behaviour step; ok=false: the real system is not where the behaviour assumes (stop following it).
+// next is the step after it (nil if none); consumedNext says it was executed too (see release).
+func (r *vC07Run) step(st vC07Step, next *vC07Step) (ok bool, consumedNext bool) {
 	n, x := vInt(st.N), uint64(vInt(st.X))
 	if n < 1 || n > len(r.allocs) {
 		r.t.Fatalf("VERIF-FATAL C07 behaviour names allocator %d of %d", n, len(r.allocs))
 	}
 	needsMutex := map[string]bool{"Next": true, "GTLast": true, "GTBatch": true, "GTBegin": true, "Idle": true, "Stop": true}
 	if needsMutex[st.A] && (!r.alive[n-1] || !r.mutexFree(n)) {
-		return false
+		return false, false
 	}
 	switch st.A {
 	case "Next":
@@ -411,34 +445,29 @@ func (r *vC07Run) step(st vC07Step) bool {
 	case "GTFinish":
 		c := r.findParked(n, "got", 0)
 		if c == nil {
-			return false
+			return false, false
 		}
 		r.resume(c, "incr")
 		r.emit("GTFinish", n, 0, c, 0)
 	case "PendRel":
 		c := r.findParked(n, "pend", x)
 		if c == nil {
-			return false
+			return false, false
 		}
 		r.resume(c, "done")
 		r.emit("PendRel", n, x, c, 0)
 	case "GiveBack":
 		if !r.held[n-1][x] {
-			return false
+			return false, false
 		}
 		c := r.start(n, "give", x, false, "done")
 		r.emit("GiveBack", n, x, c, x)
-	case "Idle":
-		c := r.start(n, "idle", 0, false, "done")
-		r.emit("Idle", n, 0, c, 0)
-	case "Stop":
-		c := r.start(n, "stop", 0, false, "done")
-		r.alive[n-1] = false
-		r.emit("Stop", n, 0, c, 0)
+	case "Idle", "Stop":
+		return true, r.release(st.A, n, next)
 	default:
 		r.t.Fatalf("VERIF-FATAL unknown action %q", st.A)
 	}
-	return true
+	return true, false
 }
 
 // drain completes every in-flight call, stops every allocator, and re-reads the notices from the bucket.
@@ -470,9 +499,7 @@ func (r *vC07Run) drain() {
 	}
 	for i := range r.allocs {
 		if r.alive[i] {
-			c := r.start(i+1, "stop", 0, false, "done")
-			r.alive[i] = false
-			r.emit("Stop", i+1, 0, c, 0)
+			r.release("Stop", i+1, nil)
 		}
 	}
 	// what the bucket really holds
@@ -547,13 +574,23 @@ func TestVerif_C07_SeqAlloc(t *testing.T) {
 		}
 		tw.Emit(vObj{"a": "Reset", "grow": b.Grow, "na": na, "beh": bi})
 		followed := 0
-		for _, st := range b.Steps {
-			if !r.step(st) {
+		for si := 0; si < len(b.Steps); si++ {
+			var next *vC07Step
+			if si+1 < len(b.Steps) {
+				next = &b.Steps[si+1]
+			}
+			ok, consumedNext := r.step(b.Steps[si], next)
+			if !ok {
 				break
 			}
 			followed++
+			if consumedNext {
+				followed++
+				si++
+			}
 		}
 		r.drain()
+		r.lines[len(r.lines)-1].o["overlaps"] = r.overlaps
 		r.lines[len(r.lines)-1].o["followed"] = followed
 		r.lines[len(r.lines)-1].o["steps"] = len(b.Steps)
 		if r.note != "" {
